@@ -158,6 +158,12 @@ def case(g, tier, ci):
     if r.random() < 0.3:
         # a sequencing entry created for a position that may hold no element (deprecated setter creates entries)
         ops.append({"op": "sq.setSeqSettings", "id": "s", "pos": r.choice([0, 1, 2, 3, 4, 5, 7]), "wait": 0, "nreps": 1, "jump": 0, "goto": 0})
+    if ci % 9 == 4:
+        # positions handed over as numpy integers (a loop over np.arange): equal numbers are equal positions
+        # (seeded C07-m17: positions compared by identity)
+        for o in ops:
+            if o["op"] in ("sq.addElement", "sq.addSub") and o.get("id") == "s":
+                o["_pos_as"] = "npint"
     return ops + observe("s", "t")
 
 
